@@ -829,6 +829,12 @@ def _deserialize_graph(
             )
             if initializer_name in value_info:
                 deserialize_value_info_proto(value_info[initializer_name], initializer_value)
+                # A value_info entry without type/shape must not erase what the tensor provides,
+                # otherwise to_proto(from_proto(p)) is not stable under another round trip.
+                if initializer_value.type is None:
+                    initializer_value.type = _core.TensorType(tensor.dtype)
+                if initializer_value.shape is None:
+                    initializer_value.shape = tensor.shape  # type: ignore[assignment]
             if initializer_value.name in quantization_annotations:
                 _deserialize_quantization_annotation(
                     quantization_annotations[initializer_value.name], initializer_value
